@@ -112,6 +112,20 @@ fn run(case: &mut Case) -> Result<(), String> {
     if saty != scaled(&aty) {
         return Err(format!("after scale({:?}): transpose_multiply = {:?}, expected {:?}", s, saty, scaled(&aty)));
     }
+    // the other order: transpose first, then scale the transposed matrix, then multiply
+    {
+        let mut tt = t; // transpose of the unscaled matrix, taken above
+        tt.scale(&s);
+        let a1 = tt.multiply(&yv).vec;
+        let a2 = tt.transpose_multiply(&xv).vec;
+        if a1 != scaled(&aty) || a2 != scaled(&ax) {
+            return Err(format!("transpose() then scale({:?}): multiply = {:?} (expected {:?}), transpose_multiply = {:?} (expected {:?})", s, a1, scaled(&aty), a2, scaled(&ax)));
+        }
+        let back = tt.transpose();
+        if back.multiply(&xv).vec != scaled(&ax) {
+            return Err(format!("transpose, scale({:?}), transpose again: multiply = {:?}, expected {:?}", s, back.multiply(&xv).vec, scaled(&ax)));
+        }
+    }
     let st = sp.transpose().multiply(&yv).vec;
     if st != scaled(&aty) {
         return Err(format!("after scale({:?}): transpose().multiply = {:?}, expected {:?}", s, st, scaled(&aty)));
@@ -126,7 +140,7 @@ impl Prop for C07 {
     fn rule(&self) -> String {
         "random shapes 0..=10 x 0..=10, duplicate-free patterns of density 0..1 with forced empty rows/columns (probability 1/3 each), built from triplets in a random order (3/4) or raw CSC arrays (1/4); \
          small rational values; non-constant rational vectors. multiply vs dense A x, transpose_multiply vs dense A^T y, transpose().multiply == transpose_multiply, \
-         transpose().transpose_multiply == multiply, <y,Ax> == <A^T y,x>, and all products after scale(s) equal s times the products before; all exact. \
+         transpose().transpose_multiply == multiply, <y,Ax> == <A^T y,x>, and all products after scale(s) equal s times the products before, in both orders (scale then transpose, transpose then scale, and transposed back); all exact. \
          Non-trivial: rows != cols, >= 2 entries, vector with >= 2 distinct components. distinct = distinct decoded choice sequence."
             .into()
     }
